@@ -189,3 +189,7 @@ FAMILIES.append(Family("generators", gen_generators, _c15.impl_scripts, _c15.mod
 for _f in FAMILIES:
     if _f.name in ("programs", "roundtrip"):
         _f.corpus = list(_f.corpus or []) + [dict(c) for c in progs.CORPUS_FEATURES]
+
+
+# wide actions: hand-offs taken at positions >= 10 (multi-digit components in serialized task ids)
+FAMILIES.append(progs.program_family("wide_handoffs", oracles.oracle_c02, 30, 500, **dict(depth=2, width=16, p_handoff=0.3, p_raise=0.03, fault=0.3, registry_rate=0.2, p_fault_ser=0.0)))
